@@ -268,6 +268,9 @@ INVS = ["AbortInvisible", "CommitAll", "ReadOwnWrite", "NoPhantomSend", "Redeliv
         "CommitAfterFailure", "NoPanic"]
 
 
+LEAN = ["-XX:TieredStopAtLevel=1", "-XX:ParallelGCThreads=2"]   # many short JVMs side by side
+
+
 def set_cfg(path, **kv):
     s = open(path).read()
     for k, v in kv.items():
@@ -296,8 +299,8 @@ def run(chk):
     def tlc_job(job):
         kind, name = job
         if kind == "gen":
-            return job, V.tlc(work, "MCCritSec", cfg="MCCritSec%s.cfg" % name, workers=1, timeout=1500, deadlock=False)
-        return job, V.tlc(work, "MCCritSecImpl", cfg=name + ".cfg", workers=2 if quick else 4, timeout=2400, deadlock=False)
+            return job, V.tlc(work, "MCCritSec", cfg="MCCritSec%s.cfg" % name, workers=1, timeout=1500, deadlock=False, jvm=LEAN)
+        return job, V.tlc(work, "MCCritSecImpl", cfg=name + ".cfg", workers=2 if quick else 4, timeout=2400, deadlock=False, jvm=LEAN)
 
     jobs = [("gen", g) for g in gens] + [("impl", n) for n, _ in design + broken]
     results = {}
@@ -394,20 +397,19 @@ def run(chk):
     # ---- 4. verdicts: TLC folds every recorded execution into CritSecObs.tla (C01 as invariants) and,
     #         in the same pass, checks conformance to Run's protocol (ProtoOK of CritSecProto.tla: drift only)
     chunks = 6 if quick else 12
-    both = V.fold_traces(work, "CritSecProto", "CritSecProto.cfg", segs, timeout=2400, chunks=chunks, max_rounds=8)
+    both = V.fold_traces(work, "CritSecProto", "CritSecProto.cfg", segs, timeout=2400, chunks=chunks, max_rounds=3,
+                         jvm=["-XX:ParallelGCThreads=2"])
     chk.states += both["states"]; chk.transitions += both["transitions"]
     drifted = [r for r in both["rejected"] if "ProtoOK" in r["text"]]
-    obs = {"accepted": both["accepted"], "rejected": [r for r in both["rejected"] if "ProtoOK" not in r["text"]],
-           "errors": both["errors"]}
-    chk.notes["m_level_traces_accepted"] = both["accepted"]
-    for r in drifted:
+    obs = both
+    chk.notes["m_level_traces_accepted"] = both["accepted"] if not drifted else "(drift: see drift_events)"
+    for r in drifted[:20]:
         chk.drift.append({"spec": "CritSecProto.tla", "case": r["seg"][0].get("id"), "event": r["line_in_seg"],
                           "text": r["text"], "calls": r["seg"][max(0, r["line_in_seg"] - 1)].get("calls")})
-    if drifted:   # cases that left the modelled mechanism are still judged at property level
-        again = V.fold_traces(work, "CritSecObs", "CritSecObs.cfg", [r["seg"] for r in drifted], timeout=2400,
-                              chunks=min(chunks, len(drifted)), max_rounds=8)
-        chk.states += again["states"]; chk.transitions += again["transitions"]
-        obs["accepted"] += again["accepted"]; obs["rejected"] += again["rejected"]; obs["errors"] += again["errors"]
+    if drifted:   # the code left the modelled mechanism: judge everything again at property level only
+        obs = V.fold_traces(work, "CritSecObs", "CritSecObs.cfg", segs, timeout=2400, chunks=chunks, max_rounds=8,
+                            jvm=["-XX:ParallelGCThreads=2"])
+        chk.states += obs["states"]; chk.transitions += obs["transitions"]
     chk.traces += obs["accepted"]
     for e in obs["errors"]:
         chk.inconclusive.append("CritSecObs: " + e)
